@@ -108,7 +108,7 @@ fn run(ctx: &mut Ctx) {
 fn guard(m: &Merged, _t: Tier) -> Vec<String> {
     let mut out = vec![];
     for f in ["crlf", "tab", "colon", "label-on-own-line", "blank-or-comment-line", "hostile-comment", "comment", "lowercase-keyword", "mixedcase-keyword",
-              "num:#n", "num:n", "num:xH", "num:#-n", "num:-n", "num:x-H", "leading-zeros", "reg-leading-zero", "no-final-newline", "unknown-escape"] {
+              "num:#n", "num:n", "num:xH", "num:#-n", "num:-n", "num:x-H", "leading-zeros", "reg-leading-zero", "no-final-newline", "unknown-escape", "unknown-escape-non-ascii"] {
         need(m, &mut out, &format!("feature.{f}"), 10);
     }
     need(m, &mut out, "pairs.parsed", 1000);
